@@ -32,6 +32,7 @@ def seed_cmds(r, slot, seed):
     return ['z Z8 %s' % hx(seed), 'c gmp_randseed R%d Z8' % slot]
 
 GENS = ['mt', 'default', 'lcs:16', 'lcs:32', 'lcs:64', 'lcs:128', 'lc:5851f42d4c957f2d:1:64', 'lc:19660d:3c6ef35f:32', 'lc:2875a2e7b175:2739110:100']
+TINYLC = ['lc:5:1:256', 'lc:5:1:128', 'lc:5:1:512', 'lc:1:1:256', 'lc:3:0:200', 'lc:9:7:1024']
 SEEDS = [0, 1, 1 << 32, M, (1 << 200) + 12345, 42]
 NEGSEEDS = [-1, -2, -3, -4, -(1 << 64), -((1 << 300) + 7)]       # gmp_randseed takes any mpz: negative seeds are reduced like the others (A52)
 BITS = [0, 1, 31, 32, 33, 63, 64, 65, 127, 128, 129, 700, 19936, 19937, 19938]
@@ -83,6 +84,14 @@ def specs(rng, tier, wid, nw, env):
     for s in lcs:
         k += 1
         if k % nw == wid: yield ('lcsize', s, rng.getrandbits(48))
+    # linear congruential states with a tiny multiplier and seed (the parameters tests/rand/t-lc2exp.c uses: a = 5, c = 1): the first dozens of
+    # draws have many leading zero bits / limbs, the one way to reach the 'high limbs of the draw are zero' paths (2^-64 per draw otherwise, A91).
+    # Only range and format are judged here (such a generator is legitimately non-uniform).
+    for g in TINYLC:
+        for sd in (0, 1, 2, 7):
+            for nb in ((65, 128, 200, 256) if q else (64, 65, 100, 128, 129, 192, 200, 256, 300, 1000)):
+                k += 1
+                if k % nw == wid: yield ('slowlc', g, sd, nb, rng.getrandbits(48))
     for g in GENS:
         for sd in SEEDS:
             for rep in range(2 if q else 10):
@@ -140,13 +149,36 @@ def build(spec, env):
                 v, _ = split_reply(rep[2])
                 if not I(v[0]) < (1 << 300): return [('mpz_urandomb:range', 'lc size %d' % s)]
         return Case(cmds, check, 2, ('lcsize', s))
-    if kind in ('range', 'repro', 'copy'):
+    if kind in ('range', 'repro', 'copy', 'slowlc'):
         g, sd = spec[1], spec[2]
         cmds = []; checks = []
         def add(c, chk=None, lab=None):
             if isinstance(c, str): c = [c]
             cmds.extend(c); checks.append((len(cmds) - 1, chk, lab))
         cmds += gen_init(r, g, 0) + seed_cmds(r, 0, sd)
+        if kind == 'slowlc':
+            nb = spec[3]
+            for i in range(160):
+                prec = r.choice([64, nb, nb + 64, 2 * nb])
+                def chkf(v):
+                    p, e, s_, m = parse_f(v[0]); x = models.mpf_value(p, e, s_, m)
+                    return None if 0 <= x < 1 else 'mpf_urandomb value %s outside [0,1)' % (float(x) if x < 1e300 else 'huge')
+                add(['f F1 %d 0 0 0' % prec, 'c mpf_urandomb F1 R0 #%d' % nb], chkf, ('mpf_urandomb', nb, prec))
+                def chkz(v, nb=nb): return None if 0 <= I(v[0]) < (1 << nb) else 'value %s not below 2^%d' % (v[0][:40], nb)
+                add('c mpz_urandomb Z1 R0 #%d' % nb, chkz, ('mpz_urandomb', nb))
+                nl = (nb + 63) // 64
+                def chkn(v, nb=nb): return None if I(v[0].split('=')[1]) < (1 << nb) else 'limbs not below 2^%d' % nb
+                add('c mpn_urandomb L0:%d R0 #%d' % (nl, nb), chkn, ('mpn_urandomb', nb))
+                m_ = (1 << nb) - r.randint(1, 1000)
+                def chkm(v, m_=m_): return None if 0 <= I(v[0]) < m_ else 'value not below the modulus'
+                add(['z Z2 %s' % hx(m_), 'c mpz_urandomm Z1 R0 Z2'], chkm, ('mpz_urandomm', nb))
+            def check(rep):
+                out = []
+                for idx, chk, lab in checks:
+                    v, _ = split_reply(rep[idx]); e = chk(v)
+                    if e: out.append(('%s:out-of-range:slow-start-lc' % lab[0], 'gen=%s seed=%s nbits=%d %s' % (g, hx(sd), nb, e)))
+                return out
+            return Case(cmds, check, len(checks), ('slowlc', g, sd, nb))
         if kind == 'range':
             for i in range(r.randint(5, 30)):
                 c, chk, lab = request(r, 0); add(c, chk, lab)
